@@ -1843,3 +1843,414 @@ def check(run):
     run.rule('R11', r11_forwarded_element_present, 'Forwarded: every consumed pair (known or extension parameter) leaves its element created', floor=1)
     run.rule('R12', r12_route_node_verbatim, 'access_route: parse_host receives the Forwarded node value itself (no colon pre-splitting), both stacks', floor=2)
     run.rule('R13', r13_forwarded_quoted_values, 'Forwarded: quoted values lose exactly the two enclosing DQUOTEs, then quoted-pairs are un-escaped (sample evaluation against an independent reader)', floor=1)
+    run.rule('R14', r14_default_port_follows_scheme, 'port / netloc: the default port is 443 exactly for https and wss (sample evaluation over the finite '
+             'scheme domain x Host header form x server address, both stacks)', floor=2)
+    run.rule('R15', _c06.r15_one_shot_scope_fields, "scope['client'] / scope['server'] are consumed at one memoised site per request: repeated access of "
+             'remote_addr / access_route / port / netloc gives the same value, never ValueError (shared with C06 R15)', floor=2)
+    run.rule('R16', r16_text_index_in_range, 'an integer index x[0] / x[-1] / x[k] into header text only where the text is known long enough '
+             '(every function R1 examines; discharges "in-range subscripts are total")', floor=14)
+
+
+# ---------------------------------------------------------------------------
+# R14 default port / port elision follow the scheme (sample evaluation over the finite scheme domain)
+# ---------------------------------------------------------------------------
+
+_SECURE_SCHEMES = ('https', 'wss')          # RFC 9110 4.2.2 / RFC 6455 3: default port 443; every other scheme of the domain: 80
+_ASGI_SCHEMES = (('http', 'http'), ('http', 'https'), ('websocket', 'ws'), ('websocket', 'wss'), ('http', None), ('websocket', None))
+_WSGI_SCHEMES = ('http', 'https')           # PEP 3333: wsgi.url_scheme is "http" or "https"
+_HOST_SAMPLES = (None, 'example.com', 'example.com:8080')
+_SERVER_SAMPLES = (None, ('srv.local', 80), ('srv.local', 443), ('srv.local', 8000))
+
+
+def _ref_port_netloc(scheme: str, host, server):
+    """independent reading: Host header first (its port, else the scheme's default), else the server's (name, port) with
+    the port elided from netloc iff it is the scheme's default"""
+    dflt = 443 if scheme in _SECURE_SCHEMES else 80
+    if host is not None:
+        name, _, port = host.partition(':')
+        return (int(port) if port else dflt), host
+    name, port = server if server is not None else ('localhost', dflt)
+    return port, (name if port == dflt else '%s:%d' % (name, port))
+
+
+def _mentions_scheme(e) -> bool:
+    for x in walk_self(e):
+        if isinstance(x, ast.Attribute) and 'scheme' in x.attr:
+            return True
+        if isinstance(x, ast.Constant) and isinstance(x.value, str) and 'scheme' in x.value:
+            return True
+    return False
+
+
+def _scheme_decider(p, cq: str, trace, fallback: Func):
+    """(function, construct) that turned the scheme into the wrong default port: the last evaluated test that mentions the
+    scheme; a test that merely reads a same-class property whose body reads the scheme is followed into that property."""
+    last = None
+    for t in trace:
+        if t[0] == 'test' and _mentions_scheme(t[1]):
+            last = t
+    if last is None:
+        return fallback, 'default port for the scheme'
+    node, fq = last[1], last[3]
+    f = p.funcs.get(fq, fallback)
+    for x in walk_self(node):
+        if isinstance(x, ast.Attribute) and isinstance(x.value, ast.Name) and x.value.id == 'self':
+            m = p.lookup_method(cq, x.attr)
+            if m is not None and m.is_property() and x.attr != 'scheme':
+                rets = [r for r in walk_no_nested(m.node) if isinstance(r, ast.Return) and r.value is not None and _mentions_scheme(r.value)]
+                if len(rets) == 1:
+                    return m, rets[0].value
+    return f, node
+
+
+def r14_default_port_follows_scheme(run):
+    """host/port/netloc and the uri/prefix composition built on them: when the Host header names no port the port is the
+    scheme's default -- 443 exactly for 'https' and 'wss', 80 for 'http' and 'ws' -- and a server port is elided from
+    netloc iff it is that default.  The scheme domain is finite (PEP 3333: http|https; ASGI: http|https|ws|wss, defaulted
+    from the scope type when the server leaves it out), so the clause is decided by evaluating `scheme`, `port` and
+    `netloc` of both request classes on sample requests (scheme x Host header form x server address) against an
+    independent reading.  A predicate that tests part of the scheme text (`scheme.endswith('s')`, `scheme != 'http'`)
+    shows up as a wrong row.
+    W: websocket handshake over plain ws, `Host: example.com` -> req.port == 443; no Host, server ('srv.local', 80) ->
+    req.netloc == 'srv.local:80', req.uri == 'ws://srv.local:80/'."""
+    from .c09_helpers import CObj, ConcreteEval, CRaise
+    p = run.project
+    plans = []
+    for typ, scheme in _ASGI_SCHEMES:
+        for host in _HOST_SAMPLES:
+            for server in _SERVER_SAMPLES:
+                scope = {'type': typ}
+                if scheme is not None:
+                    scope['scheme'] = scheme
+                if server is not None:
+                    scope['server'] = server
+                hdrs = {b'host': host.encode('latin1')} if host is not None else {}
+                eff = scheme if scheme is not None else ('ws' if typ == 'websocket' else 'http')
+                plans.append((ASGI_REQ, {'scope': scope, '_asgi_headers': hdrs, 'is_websocket': typ == 'websocket', '_asgi_server_cached': None},
+                              eff, host, server, 'type=%s scheme=%r Host=%r server=%r' % (typ, scheme, host, server)))
+    for scheme in _WSGI_SCHEMES:
+        for host in _HOST_SAMPLES:
+            for server in _SERVER_SAMPLES[1:]:
+                env = {'wsgi.url_scheme': scheme, 'SERVER_NAME': server[0], 'SERVER_PORT': str(server[1])}
+                if host is not None:
+                    env['HTTP_HOST'] = host
+                plans.append((WSGI_REQ, {'env': env}, scheme, host, server, 'wsgi.url_scheme=%r Host=%r SERVER_NAME/PORT=%r' % (scheme, host, server)))
+    accs = {}
+    for cq in (WSGI_REQ, ASGI_REQ):
+        for a in ('scheme', 'port', 'netloc'):
+            m = p.lookup_method(cq, a)
+            if m is None or not m.is_property():
+                raise AnchorError('%s.%s is not a property' % (cq, a))
+            accs[(cq, a)] = m
+            run.use(m)
+    problems: Dict[tuple, dict] = {}
+    n_rows = {WSGI_REQ: 0, ASGI_REQ: 0}
+    for cq, attrs, scheme, host, server, text in plans:
+        want_port, want_netloc = _ref_port_netloc(scheme, host, server)
+        for acc, want in (('scheme', scheme), ('port', want_port), ('netloc', want_netloc)):
+            ev = ConcreteEval(p)
+            obj = CObj(cq, dict((k, (dict(v) if isinstance(v, dict) else v)) for k, v in attrs.items()))
+            f = accs[(cq, acc)]
+            try:
+                got = ev.getattr(obj, acc, f, None)
+            except CRaise as ex:
+                raise UnknownIdiom('%s: evaluating the accessor on the sample request (%s) raised %s at %s' % (
+                    f.qual, text, ex.cls, short(ex.node, 60) if ex.node is not None else '?'))
+            n_rows[cq] += 1
+            if got == want and type(got) is type(want):
+                continue
+            df, cons = _scheme_decider(p, cq, ev.trace, f) if acc != 'scheme' else (f, 'scheme of the request')
+            d = problems.setdefault((df.qual, short(cons, 160) if isinstance(cons, ast.AST) else cons), {'f': df, 'cons': cons, 'wit': [], 'stacks': set()})
+            d['stacks'].add(cq)
+            d['wit'].append('%s: req.%s == %r, an independent reading gives %r' % (text, acc, got, want))
+    for cq in (WSGI_REQ, ASGI_REQ):
+        if not any(cq in d['stacks'] for d in problems.values()):
+            run.ok('%s: scheme / port / netloc agree with an independent reading on %d sample rows (scheme domain %s x Host header absent / '
+                   'without port / with port x server address): the default port is 443 exactly for https%s' % (
+                       cq, n_rows[cq], '/'.join(_WSGI_SCHEMES) if cq == WSGI_REQ else 'http/https/ws/wss (given or defaulted)',
+                       '' if cq == WSGI_REQ else ' and wss'), accs[(cq, 'port')].loc(), '%s: default port by scheme' % cq)
+    for key in sorted(problems):
+        d = problems[key]
+        cons = d['cons']
+        run.fail('the default port / the elision of the port in netloc does not follow the scheme (443 exactly for https and wss, 80 for http '
+                 'and ws): %s' % d['wit'][0], d['f'], cons, where=d['f'].loc(cons) if isinstance(cons, ast.AST) else d['f'].loc(),
+                 witness=d['wit'][:10] + (['... %d rows in all' % len(d['wit'])] if len(d['wit']) > 10 else []),
+                 runtime_witness="ASGI websocket scope with scheme 'ws', Host: example.com -> req.port == 443; no Host header and server "
+                                 "('srv.local', 80) -> req.netloc == 'srv.local:80', req.prefix == 'ws://srv.local:80'")
+    run.extra['c09_r14'] = {'rows': dict(n_rows), 'disagreeing_constructs': len(problems)}
+
+
+# ---------------------------------------------------------------------------
+# R16 an integer index into header text is taken only where the text is known long enough
+# ---------------------------------------------------------------------------
+# R1's escape analysis assumes "in-range sequence subscripts are total".  This rule discharges that assumption for the
+# functions R1 examines: `x[0]`, `x[-1]`, `x[k]` on a str / bytes raises IndexError when the text is too short (slices
+# never raise), and header text is client-chosen: `If-None-Match: W/` leaves an EMPTY opaque-tag behind.
+
+# (function, construct) -> reason: integer indices into a sequence that is NOT header text and whose non-emptiness is an
+# invariant of its producer (one line each; these are outside the clause, listed so that the sweep is complete).
+# `<local>` stands for a plain local variable (its name is not an anchor); the table is never consulted for text.
+_INDEX_TABLED = {
+    ('falcon.asgi.request.Request.remote_addr', 'self.access_route[-1]'):
+        'access_route ends with the connecting peer address (scope[client] / 127.0.0.1; tail decided by R8 = C06 R6); it is empty only when the SERVER '
+        'reports an empty client host -- server-controlled, not header text',
+    ('falcon.request.Request.cookies', '<local>[0]'):
+        'every value list of _cookies is created together with its first element (`cookies[name] = [value]` in _parse_cookie_header)',
+    ('falcon.util.mediatypes.quality', '<local>[-1]'):
+        'match_score answers a fixed-shape 5-tuple (or the _NOT_MATCHING constant of the same shape)',
+}
+_ETAG_READERS = ('falcon.util.structures.ETag.loads', 'falcon.request_helpers._parse_etags')
+
+
+def _r1_closure(p) -> List[Func]:
+    """the functions R1's escape analysis walks for the C09 accessors of both stacks"""
+    E = SiteEscape(p)
+    for cq in (WSGI_REQ, ASGI_REQ):
+        c = p.cls(cq)
+        mem = effective_members(p, cq)
+        for name in C09_ACCESSORS:
+            m = mem.get(name)
+            if m is None or m.func is None:
+                raise AnchorError('accessor %s.%s not found' % (cq, name))
+            E.summary(m.func, c)
+    quals = sorted({k[0] for k in E.memo})
+    return [p.funcs[q] for q in quals if q in p.funcs]
+
+
+def _match_group_width(p, f: Func, rd, nid: int, d) -> int:
+    """least length of a text bound from a successful regex match: `a, b = <m>.groups()` / `x = <m>.group(i)` where <m> is
+    bound once to `<module-level pattern>.match/fullmatch/search(...)` -- the group's least width, read off the pattern."""
+    from .c09_helpers import ConcreteEval, regex_group_min_width
+    call, group = None, None
+    if d.how == 'unpack' and isinstance(d.src, ast.Call) and isinstance(d.src.func, ast.Attribute) and d.src.func.attr == 'groups' and not d.src.args:
+        call, group = d.src, (d.index or 0) + 1
+    elif d.how == 'assign' and isinstance(d.value, ast.Call) and isinstance(d.value.func, ast.Attribute) and d.value.func.attr == 'group' \
+            and len(d.value.args) == 1 and isinstance(d.value.args[0], ast.Constant) and isinstance(d.value.args[0].value, int):
+        call, group = d.value, d.value.args[0].value
+    if call is None or not group or not isinstance(call.func.value, ast.Name):
+        return 0
+    mdefs = rd.at(nid, call.func.value.id)
+    widths = []
+    for md in mdefs:
+        v = md.value
+        if not (md.how == 'assign' and isinstance(v, ast.Call) and isinstance(v.func, ast.Attribute) and v.func.attr in ('match', 'fullmatch', 'search')):
+            return 0
+        q = p.resolve_expr(f.module, v.func.value, f)
+        if not q:
+            return 0
+        try:
+            pat = ConcreteEval(p).module_const(q, f, v)
+        except UnknownIdiom:
+            return 0
+        if not isinstance(pat, re.Pattern):
+            return 0
+        w = regex_group_min_width(pat.pattern, group)
+        if w is None:
+            return 0
+        widths.append(w)
+    return min(widths) if widths else 0
+
+
+def r16_text_index_in_range(run):
+    """In every function R1 examines (the closure of the typed header accessors of both stacks, in particular the
+    entity-tag reader ETag.loads / _parse_etags), an INTEGER-INDEX subscript `x[0]`, `x[-1]`, `x[k]` on text is taken only
+    where the text is known long enough: a dominating branch outcome (truthiness, a len() comparison, startswith /
+    endswith / equality / containment of a non-empty constant -- on the same, not re-bound, value), an earlier operand
+    of the same and/or, a successful regex match whose group cannot be empty, or for `x[i]` a loop guard `0 <= i < len(x)`.
+    Otherwise the read can raise IndexError: neither a lenient reading nor a 4xx.  Slices never raise.
+    W: `If-None-Match: W/` -> ETag.loads strips the weak prefix, `value[0]` on '' -> IndexError (500) on both stacks."""
+    from .c09_helpers import (ReachingDefs, SeqKinds, dominating_outcomes, index_in_range, node_of, rebound_between, seq_min_len)
+    p = run.project
+    funcs = _r1_closure(p)
+    have = {f.qual for f in funcs}
+    for q in _ETAG_READERS:
+        if q not in have:
+            raise AnchorError('%s is not reached from the conditional-header accessors any more (entity-tag reader moved?)' % q)
+    n_text = n_other = 0
+    tabled_used = set()
+    per_reader = {q: 0 for q in _ETAG_READERS}
+    for f in funcs:
+        skip = set()
+        for n in ast.walk(f.node):
+            for fld in ('annotation', 'returns'):
+                a = getattr(n, fld, None)
+                if isinstance(a, ast.AST):
+                    skip |= {id(x) for x in ast.walk(a)}
+        subs = [n for n in walk_no_nested(f.node) if isinstance(n, ast.Subscript) and isinstance(n.ctx, ast.Load)
+                and not isinstance(n.slice, ast.Slice) and id(n) not in skip]
+        if not subs:
+            continue
+        kinds = SeqKinds(p, f)
+        cfg = rd = parent = None
+        for sub in subs:
+            k = _int_index(sub.slice)
+            var = sub.slice.id if isinstance(sub.slice, ast.Name) else None
+            bk = kinds.kind(sub.value)
+            if bk == 'map' or (isinstance(sub.slice, ast.Constant) and not isinstance(sub.slice.value, int)):
+                continue                                  # a key lookup: KeyError territory, R1's own business
+            if k is None and var is None:
+                if bk == 'text':
+                    raise UnknownIdiom('%s: header text is indexed with the computed position %s; the rule reads constant and plain-variable indices only'
+                                       % (f.qual, short(sub, 60)))
+                continue
+            if k is None and bk not in ('text', 'seq'):
+                continue                                  # d[name]: not known to be a sequence
+            if cfg is None:
+                cfg = cfg_of(f, p)
+                run.use_cfg(cfg)
+                rd = ReachingDefs(cfg)
+                parent = enclosing_map(f.node)
+            base = ast.unparse(sub.value)
+            need = (k + 1 if k >= 0 else -k) if k is not None else 1
+            nid = node_of(cfg, sub)
+            base_names = {x.id for x in walk_self(sub.value) if isinstance(x, ast.Name)} - {'self'}
+            attr_texts = {ast.unparse(x) for x in walk_self(sub.value) if isinstance(x, ast.Attribute)}
+            if var is not None:
+                base_names_v = base_names | {var}
+            # locals that hold len(base) here: the one binding that reaches is `n = len(<base>)`, and the base is not re-bound since
+            len_aliases = set()
+            if isinstance(sub.value, ast.Name):
+                here = {id(d) for d in rd.at(nid, sub.value.id)}
+                for nm, vals in assignments(f).items():
+                    if not any(v is not None and isinstance(v, ast.Call) and isinstance(v.func, ast.Name) and v.func.id == 'len' and len(v.args) == 1
+                               and ast.unparse(v.args[0]) == base for v in vals):
+                        continue
+                    ds = rd.at(nid, nm)
+                    if len(ds) == 1 and ds[0].how == 'assign' and isinstance(ds[0].value, ast.Call) and isinstance(ds[0].value.func, ast.Name) \
+                            and ds[0].value.func.id == 'len' and len(ds[0].value.args) == 1 and ast.unparse(ds[0].value.args[0]) == base:
+                        there = {id(d) for d in rd.at(node_of(cfg, ds[0].stmt), sub.value.id)}
+                        if there == here:
+                            len_aliases.add(nm)
+            got = 0
+            lo = hi = False
+            why = []
+            # (1) what the bindings say
+            if not isinstance(sub.value, ast.Name):
+                got = _producer_len(p, f, sub.value)
+                if got:
+                    why.append('%s always answers at least %d item(s)' % (short(sub.value, 60), got))
+            else:
+                ds = rd.at(nid, sub.value.id)
+                ws = []
+                for d in ds:
+                    w = 0
+                    if d.how == 'assign' and isinstance(d.value, ast.Constant) and isinstance(d.value.value, (str, bytes)):
+                        w = len(d.value.value)
+                    elif d.how == 'assign' and d.value is not None and _producer_len(p, f, d.value):
+                        w = _producer_len(p, f, d.value)
+                    elif d.how in ('assign', 'unpack'):
+                        w = _match_group_width(p, f, rd, node_of(cfg, d.stmt) if isinstance(d.stmt, ast.stmt) else nid, d)
+                    elif d.how == 'for' and isinstance(d.src, ast.Call) and isinstance(d.src.func, ast.Attribute) and d.src.func.attr == 'split' \
+                            and not d.src.args and not d.src.keywords:
+                        w = 1                                   # str.split() without separator never yields an empty piece
+                    ws.append(w)
+                if ws and min(ws) > 0:
+                    got = min(ws)
+                    why.append('every binding that reaches here is at least %d long (constant / non-empty regex group / split, partition, fixed-shape tuple)' % got)
+            # (2) dominating branch outcomes that are still fresh
+            for tid, lab, truth in dominating_outcomes(cfg, nid):
+                test = cfg.node(tid).ast
+                w = seq_min_len(test, truth, base, len_aliases)
+                if w > got and not rebound_between(cfg, tid, lab, nid, base_names | len_aliases, attr_texts):
+                    got = w
+                    why.append('%s is %s' % (short(test, 70), truth))
+                if var is not None:
+                    l_, h_ = index_in_range(test, truth, var, base, len_aliases)
+                    if (l_ or h_) and not rebound_between(cfg, tid, lab, nid, base_names_v | len_aliases, attr_texts):
+                        lo, hi = lo or l_, hi or h_
+                        why.append('%s is %s' % (short(test, 70), truth))
+            # (3) earlier operands of the same and/or, the test of an enclosing conditional expression / comprehension filter
+            child = sub
+            for anc in ancestors_of(sub, parent):
+                if isinstance(anc, ast.stmt):
+                    break
+                facts = []
+                if isinstance(anc, ast.BoolOp):
+                    i = next((j for j, v in enumerate(anc.values) if v is child), None)
+                    if i:
+                        facts = [(v, isinstance(anc.op, ast.And)) for v in anc.values[:i]]
+                elif isinstance(anc, ast.IfExp) and child is not anc.test:
+                    facts = [(anc.test, child is anc.body)]
+                elif isinstance(anc, (ast.ListComp, ast.SetComp, ast.GeneratorExp, ast.DictComp)) and not any(child is g for g in anc.generators):
+                    facts = [(c, True) for g in anc.generators for c in g.ifs]
+                for t_, tr in facts:
+                    w = seq_min_len(t_, tr, base, len_aliases)
+                    if w > got:
+                        got = w
+                        why.append('%s is %s in the same expression' % (short(t_, 70), tr))
+                    if var is not None:
+                        l_, h_ = index_in_range(t_, tr, var, base, len_aliases)
+                        lo, hi = lo or l_, hi or h_
+                child = anc
+            proved = (got >= need) if var is None else (lo and hi)
+            what = ('%s: the integer index %s is taken only where the %s is known to be long enough (needs %s)' % (
+                f.qual, short(sub, 50), 'header text' if bk == 'text' else 'sequence',
+                ('len >= %d' % need) if var is None else '0 <= %s < len(%s)' % (var, base)))
+            key = (f.qual, ast.unparse(sub))
+            if key not in _INDEX_TABLED and isinstance(sub.value, ast.Name):
+                # a local bound once to a plain attribute chain stands for that chain (`route = self.access_route; route[-1]`)
+                vals = assignments(f).get(sub.value.id, [])
+                if len(vals) == 1 and isinstance(vals[0], ast.Attribute) and sub.value.id not in f.params():
+                    key = (f.qual, '%s[%s]' % (ast.unparse(vals[0]), ast.unparse(sub.slice)))
+                if key not in _INDEX_TABLED and sub.value.id not in f.params():
+                    key = (f.qual, '<local>[%s]' % ast.unparse(sub.slice))
+            if f.qual in per_reader:
+                per_reader[f.qual] += 1
+            if bk == 'text':
+                n_text += 1
+            else:
+                n_other += 1
+            if proved:
+                run.ok(what + ' -- ' + '; '.join(dict.fromkeys(why)), f.loc(sub), sub)
+                continue
+            if key in _INDEX_TABLED and bk != 'text':
+                tabled_used.add(key)
+                run.ok(what + ' -- tabled: ' + _INDEX_TABLED[key], f.loc(sub), sub)
+                continue
+            if bk != 'text':
+                raise UnknownIdiom('%s: %s indexes a sequence that is not known to be header text, is not proved non-empty and is not in the table '
+                                   'of producer invariants (_INDEX_TABLED)' % (f.qual, short(sub, 60)))
+            if isinstance(sub.value, ast.Name) and f.name.startswith('_') and any(d.how == 'param' for d in rd.at(nid, sub.value.id)) \
+                    and f.qual not in _ETAG_READERS:
+                raise UnknownIdiom('%s: %s indexes a parameter of a private helper; what its callers guarantee is not read' % (f.qual, short(sub, 60)))
+            run.fail('an integer index into header text that may be too short (nothing on the way here says the text has %s): IndexError '
+                     'escapes the header accessors -- neither a lenient reading nor a 4xx' % (
+                         ('%d character(s)' % need) if var is None else 'a character at that position'),
+                     f, sub, where=f.loc(sub), witness=['known here: len(%s) >= %d' % (base, got)] + why,
+                     runtime_witness="If-None-Match: W/  (the whole value is the weak prefix): the opaque-tag left after stripping it is empty -> "
+                                     "req.if_none_match raises IndexError (a 500) on WSGI and ASGI")
+    run.ok('entity-tag reader: %s' % '; '.join('%s takes %d integer index(es) (slices never raise)' % (q.rsplit('.', 2)[-2] + '.' + q.rsplit('.', 1)[-1], n)
+                                             for q, n in sorted(per_reader.items())), p.func(_ETAG_READERS[0]).loc(), 'entity-tag reader: integer indices')
+    run.extra['c09_r16'] = {'functions_swept': len(funcs), 'text_indices': n_text, 'other_sequence_indices': n_other, 'tabled': len(tabled_used),
+                            'tabled_not_met': sorted('%s :: %s' % k for k in set(_INDEX_TABLED) - tabled_used)}
+
+
+def _producer_len(p, f: Func, e) -> int:
+    """least number of items of what an expression produces, by construction: str.split / rsplit with a separator (>= 1 piece),
+    partition / rpartition (3), a tuple / list display, a package function whose return annotation is a fixed-shape Tuple[...]"""
+    if isinstance(e, (ast.Tuple, ast.List)) and not any(isinstance(x, ast.Starred) for x in e.elts):
+        return len(e.elts)
+    if isinstance(e, ast.Call) and isinstance(e.func, ast.Attribute):
+        if e.func.attr in ('split', 'rsplit') and (e.args or any(k.arg == 'sep' for k in e.keywords)) \
+                and not (e.args and isinstance(e.args[0], ast.Constant) and e.args[0].value is None):
+            return 1
+        if e.func.attr in ('partition', 'rpartition') and len(e.args) == 1:
+            return 3
+    if isinstance(e, ast.Call):
+        t = p.callee(f, e)
+        if isinstance(t, Func) and t.node.returns is not None and not t.is_async:
+            a = t.node.returns
+            if isinstance(a, ast.Subscript) and ast.unparse(a.value).replace('typing.', '') in ('Tuple', 'tuple'):
+                elts = a.slice.elts if isinstance(a.slice, ast.Tuple) else [a.slice]
+                if not any(isinstance(x, ast.Constant) and x.value is Ellipsis for x in elts):
+                    return len(elts)
+    return 0
+
+
+def _int_index(s) -> Optional[int]:
+    if isinstance(s, ast.Constant) and isinstance(s.value, int) and not isinstance(s.value, bool):
+        return s.value
+    if isinstance(s, ast.UnaryOp) and isinstance(s.op, ast.USub) and isinstance(s.operand, ast.Constant) \
+            and isinstance(s.operand.value, int) and not isinstance(s.operand.value, bool):
+        return -s.operand.value
+    return None
